@@ -64,13 +64,18 @@ the particular functions):
 Anything else raises TranslateError (-> reported as a broken extraction, the tie theorem then fails): closures,
 `match`, `loop`, `continue`, references stored in variables, `cfg` attributes inside a translated body, non-literal
 indices into word arrays, shadowing a variable with a different type inside a loop, …  Nothing is skipped silently;
-nested `fn` items are translated as their own kernels.
+nested `fn` items are accepted only when they are kernels of their own (spec: `outer=<this fn>`), any other nested item is refused.
+After audit 3 (tools/ktx_glue_guard.py): the function is the ONE live definition in the live blocks its scope names (item `#[cfg]`
+evaluated); inner-block shadowing, `let x = &mut …` aliases, re-bound `&mut` parameters are refused; the trailing expression of a
+NESTED block is a statement, not the function's return; an operand / argument / field initialiser with a side effect evaluated after
+another operand was read is refused (`Tr.after`).
 """
 import os
 import re
 
 import kernel_translate as KT
 from kernel_translate import P, TranslateError, strip_comments
+import ktx_glue_guard as GUARD
 
 LEAN_RESERVED = {"at", "from", "end", "open", "show", "have", "fun", "then", "else", "if", "do", "let", "in", "with",
                  "match", "by", "where", "def", "instance", "structure", "class", "local", "section", "namespace",
@@ -137,37 +142,51 @@ def balanced_end(text, i, op="{", cl="}"):
     return i
 
 
-def scope_text(src, scope):
-    """text of the `{ … }` block opened after the first match of regex `scope` (an `impl …`/`macro_rules! …` header)"""
+def scope_texts(src, scope):
+    """texts of the `{ … }` blocks opened after each LIVE match of regex `scope` (an `impl …` / `macro_rules! …` header): the `#[cfg]`
+    attributes in front of the item are evaluated with the table of tools/ktx_glue_guard.py; Rust merges the `impl` blocks of a type, so
+    together they are the bounded region in which a name is looked up (and must be unique)"""
     text = strip_comments(src)
     if not scope:
-        return text
-    m = re.search(scope, text)
-    if not m:
-        raise TranslateError(f"scope {scope!r} not found")
-    j = text.find("{", m.end() - 1 if text[m.end() - 1] == "{" else m.end())
-    if j < 0:
-        raise TranslateError(f"scope {scope!r}: no block")
-    return text[j + 1:balanced_end(text, j + 1) - 1]
+        return [text]
+    masked = GUARD.mask_literals(text)
+    out, n = [], 0
+    for m in re.finditer(scope, text):
+        n += 1
+        hs = max(masked.rfind(";", 0, m.start()), masked.rfind("}", 0, m.start()), masked.rfind("{", 0, m.start())) + 1
+        kw = re.search(r"\b(?:unsafe\s+)?(?:impl|trait|mod|macro_rules)\b", masked[hs:m.end()])
+        hstart = hs + kw.start() if kw else m.start()
+        if not GUARD.attrs_live(GUARD.attrs_before(text, hstart), f"scope {scope!r}"):
+            continue
+        j = masked.find("{", m.end() - 1 if masked[m.end() - 1] == "{" else m.end())
+        if j < 0:
+            raise TranslateError(f"scope {scope!r}: no block")
+        out.append(text[j + 1:GUARD.close_of(masked, j) - 1])
+    if not out:
+        raise TranslateError(f"scope {scope!r} not found" + (f" ({n} cfg-disabled)" if n else ""))
+    return out
 
 
-def find_fn_in(text, fn):
-    """(header text, body text) of the first `fn <fn>` with a body in `text`"""
-    for m in re.compile(r"\bfn\s+" + re.escape(fn) + r"\b").finditer(text):
-        depth, j = 0, m.end()
-        while j < len(text):
-            c = text[j]
-            if c in "([":
-                depth += 1
-            elif c in ")]":
-                depth -= 1
-            elif c == "{" and depth == 0:
-                e = balanced_end(text, j + 1)
-                return text[m.start():j], text[j + 1:e - 1]
-            elif c == ";" and depth == 0:
-                break
-            j += 1
-    raise TranslateError(f"fn {fn} not found")
+def scope_text(src, scope):
+    return "\n".join(scope_texts(src, scope))
+
+
+def find_fn_in(text, fn, nested=False):
+    """(header text, body text) of THE live `fn <fn>` with a body in `text`: item #[cfg] evaluated, the match must be unique; a fn nested
+    inside another fn's body is found only with nested=True (then `text` is the body of the enclosing fn and the item must be its own)"""
+    found = []
+    for b in GUARD.scan_blocks(text):
+        if b.kind != "fn" or b.name != fn or not b.all_live():
+            continue
+        fn_anc = [a for a in GUARD.ancestors(b) if a.kind == "fn"]
+        if fn_anc:
+            continue                      # an item of some other function's body
+        found.append(b)
+    if len(found) != 1:
+        raise TranslateError(f"fn {fn}: {len(found)} live definitions in its scope; exactly one is required")
+    b = found[0]
+    hdr = text[b.hstart:b.open]
+    return hdr, text[b.open + 1:b.end - 1]
 
 
 # ------------------------------------------------------------------------------------------------ parser
@@ -175,6 +194,8 @@ def find_fn_in(text, fn):
 class PG(P):
     """parser of kernel_translate.py + statements `while`/`if`/`break`/`return`, macro invocations, turbofish,
     struct literals, string literals, explicit deref"""
+
+    nested_ok = ()
 
     def __init__(self, toks):
         super().__init__(toks)
@@ -227,19 +248,28 @@ class PG(P):
             if self.at(";"):
                 self.eat(); continue
             if self.at("#"):
-                self.eat(); self.eat("["); d = 1; toks = []
+                self.eat()
+                if self.at("!"):
+                    self.eat()
+                self.eat("["); d = 1; toks = []
                 while d:
                     t = self.eat()[1]; d += (t == "[") - (t == "]"); toks.append(t)
-                if "cfg" in toks:
-                    raise TranslateError("cfg attribute inside a translated body")
+                if "cfg" in toks or "cfg_attr" in toks or (toks and toks[0] not in GUARD.NEUTRAL_ATTRS):
+                    raise TranslateError(f"attribute #[{toks[0] if toks else ''}…] inside a translated body")
                 continue
-            if self.atid("fn") or (self.atid("const") and self.peek(1)[1] == "fn"):     # nested fn: its own kernel
+            if self.atid("fn") or (self.atid("const") and self.peek(1)[1] == "fn"):     # nested fn: only a kernel of its own
+                j = self.i + (1 if self.atid("fn") else 2)
+                nm = self.t[j][1] if j < len(self.t) else None
+                if nm not in self.nested_ok:
+                    raise TranslateError(f"nested `fn {nm}` inside a translated body is not a kernel of its own")
                 while not self.at("{"):
                     self.eat()
                 self.eat("{"); d = 1
                 while d:
                     t = self.eat()[1]; d += (t == "{") - (t == "}")
                 continue
+            if self.peek()[0] == "id" and self.peek()[1] in ("use", "struct", "impl", "mod", "static", "trait", "enum", "extern", "type", "macro_rules"):
+                raise TranslateError(f"nested `{self.peek()[1]}` item inside a translated body")
             stmts.append(self.stmt())
         return stmts
 
@@ -466,6 +496,12 @@ class GK:
             _, text = find_fn_in(text, self.outer)
         return text
 
+    def nested_kernels(self):
+        """names of the nested `fn` items of this function that are kernels of their own (spec: `outer=<this fn>`, same file and scope):
+        only those may be skipped when the body is parsed; a call resolves to them (world.kernels) as in Rust"""
+        return tuple(k.fn for k in self.world.kernels.values()
+                     if k.outer == self.fn and k.file == self.file and k.scope == self.scope)
+
     def sig(self):
         if self._sig is None:
             hdr, _ = find_fn_in(self.source(), self.fn)
@@ -521,6 +557,22 @@ class Tr:
         self.loop_depth = 0
         self.aux = []
         self.aux_n = 0
+        self.epoch = 0        # number of re-bindings of variables emitted so far (see `after`)
+
+    @staticmethod
+    def fragile(t):
+        """does this value text depend on a variable binding (neither a literal nor a fresh temporary)?"""
+        return t is not None and not re.fullmatch(r"t\d+(\.[12])*|\(?-?(0x)?[0-9a-f]+( : \w+)?\)?|true|false|\(\)", t)
+
+    def after(self, earlier, thunk):
+        """evaluate the next operand (left to right, as Rust does).  Values are Lean TEXTS over the current bindings and are used after
+        everything the later operands emit; a later operand that re-binds a variable (a call with `&mut` effects) would change what an
+        earlier operand's text means (audit 3, F8): refused unless the earlier operands are literals / fresh temporaries"""
+        e0 = self.epoch
+        r = thunk()
+        if self.epoch != e0 and any(self.fragile(x) for x in earlier):
+            raise TranslateError("an operand with a side effect is evaluated after another operand was read (evaluation order)")
+        return r
 
     def fresh(self):
         self.tmp += 1
@@ -612,6 +664,7 @@ class Tr:
 
     def store(self, pl, text, out):
         root, path, _ = pl
+        self.epoch += 1
         m_ = re.fullmatch(r"( *)let (t\d+) (←|:=) (.*)", out.lines[-1]) if out.lines else None
         if not path and m_ and m_.group(2) == text:
             out.lines[-1] = f"{m_.group(1)}let {lname(root)} {m_.group(3)} {m_.group(4)}"
@@ -817,7 +870,7 @@ class Tr:
             return (f"{self.par(self.as_prop(lt, lty))} {sym} {self.par(self.as_prop(rt, rty))}", "prop")
         if op in ("==", "!=", "<", ">", "<=", ">="):
             lt, lty = self.operand(l, r, env, out)
-            rt, rty = self.ex(r, env, out, lty)
+            rt, rty = self.after([lt], lambda: self.ex(r, env, out, lty))
             if lty != rty:
                 raise TranslateError(f"comparison of {lty} with {rty}")
             if lty not in ("usize", "i64") and not (isinstance(lty, tuple) and lty[0] == "nat"):
@@ -832,12 +885,12 @@ class Tr:
                 if r[1] >= BITS[lty]:
                     raise TranslateError("shift amount")
                 return (f"{self.par(lt)} {'<<<' if op == '<<' else '>>>'} {r[1]}", lty)
-            rt, rty = self.ex(r, env, out, "usize")
+            rt, rty = self.after([lt], lambda: self.ex(r, env, out, "usize"))
             if lty != "u8" or op != "<<" or rty != "usize":
                 raise TranslateError("variable shift only on u8 <<")
             return (self.bind(f"shlU8 {self.par(lt)} {self.par(rt)}", out), "u8")
         lt, lty = self.operand(l, r, env, out, want)
-        rt, rty = self.ex(r, env, out, lty)
+        rt, rty = self.after([lt], lambda: self.ex(r, env, out, lty))
         if lty != rty:
             raise TranslateError(f"operands {lty} / {rty} of {op}")
         if lty == "usize":
@@ -893,6 +946,7 @@ class Tr:
         if st is None or st.lit is None:
             raise TranslateError(f"struct literal {name}")
         vals = {}
+        seen = []
         for f, v in e[2]:
             if f not in st.fields:
                 raise TranslateError(f"unknown field {f}")
@@ -900,9 +954,13 @@ class Tr:
             if isinstance(fty, tuple) and fty[0] == "natarr":
                 if v[0] != "array" or len(v[1]) != len(st.fields[f][1][-1]):
                     raise TranslateError("word pair literal")
-                vals[f] = [self.ex(x, env, out, ("nat", fty[1]))[0] for x in v[1]]
+                vals[f] = []
+                for x in v[1]:
+                    vals[f].append(self.after(seen, lambda x=x: self.ex(x, env, out, ("nat", fty[1])))[0])
+                    seen.append(vals[f][-1])
             else:
-                t, ty = self.ex(v, env, out, fty if isinstance(fty, str) else None)
+                t, ty = self.after(seen, lambda: self.ex(v, env, out, fty if isinstance(fty, str) else None))
+                seen.append(t)
                 if ty != fty:
                     raise TranslateError(f"field {f}: {ty} for {fty}")
                 vals[f] = t
@@ -921,7 +979,7 @@ class Tr:
             t, ty = self.ex(recv, env, out)
             if not (isinstance(ty, tuple) and ty[0] == "nat"):
                 raise TranslateError("wrapping_add on a non-natural word")
-            a, aty = self.ex(args[0], env, out, ty)
+            a, aty = self.after([t], lambda: self.ex(args[0], env, out, ty))
             if aty != ty:
                 raise TranslateError("wrapping_add operand type")
             return (f"({self.par(t)} + {self.par(a)}) % 2 ^ {ty[1]}", ty)
@@ -1001,6 +1059,7 @@ class Tr:
                 outs.append(("place", rpl))
         texts = []
         for a, (mode, pty) in zip(args, ptypes):
+            e_arg = self.epoch
             if mode == "mut":
                 tgt = a[2] if a[0] == "ref" else a
                 if a[0] != "ref" or not a[1]:
@@ -1027,6 +1086,8 @@ class Tr:
                 if ty != pty:
                     raise TranslateError(f"argument type {ty} for {pty}")
                 texts.append(self.par(t))
+            if self.epoch != e_arg and any(self.fragile(x) for x in texts[:-1]):
+                raise TranslateError("an argument with a side effect is evaluated after another argument was read (evaluation order)")
         if kind == "kernel":
             app = " ".join([obj.lean_name] + list(gen) + ([pieces["self"]] if recv is not None else []) + texts)
         else:
@@ -1106,8 +1167,11 @@ class Tr:
                 walk_e(s[1]); Tr.assigned(s[2], acc)
             elif s[0] == "for":
                 walk_e(s[2]); Tr.assigned(s[3], acc)
-            elif s[0] == "return" and s[1] is not None:
-                walk_e(s[1])
+            elif s[0] == "return":
+                if s[1] is not None:
+                    walk_e(s[1])
+            elif s[0] != "break":
+                raise TranslateError(f"unsupported statement {s[0]}")
         return acc
 
     @staticmethod
@@ -1168,6 +1232,11 @@ class Tr:
                 if s[1][0] == "macro" and s[1][1] in ("panic", "unreachable"):
                     return
             elif kind == "ret":
+                if stmts is not self.top_stmts:
+                    # the value of a NESTED block (a unit call without `;`): a statement, the continuation follows (audit 3, F2)
+                    self.do_expr_stmt(s[1], env, out)
+                    i += 1
+                    continue
                 self.ret_tail(s[1], env, out)
                 return
             elif kind == "return":
@@ -1320,6 +1389,7 @@ class Tr:
         raise TranslateError(f"expression statement {e[0]}")
 
     loop_tail = None
+    top_stmts = None
 
     def join_tail(self, vars_):
         def t(env, out):
@@ -1327,6 +1397,8 @@ class Tr:
         return t
 
     def rebind(self, vars_, r, out):
+        if vars_:
+            self.epoch += 1
         m_ = re.fullmatch(r"( *)let (t\d+) (←|:=) (.*)", out.lines[-1]) if out.lines else None
         if len(vars_) == 1 and m_ and m_.group(2) == r:
             out.lines[-1] = f"{m_.group(1)}let {lname(vars_[0])} {m_.group(3)} {m_.group(4)}"
@@ -1480,8 +1552,16 @@ class Tr:
     def run(self):
         k = self.k
         hdr, body = find_fn_in(k.source(), k.fn)
+        nested_ok = k.nested_kernels()
+        # statement attributes, nested items that are not kernels of their own, inner-block shadowing, `let x = &mut …` aliases and
+        # re-bound `&mut` parameters are refused (tools/ktx_glue_guard.py); imports are pinned by the spec's `Imports_src` kernels
+        GUARD.lint_fn(hdr + " {", body, what=f"fn {k.fn}", nested_ok=nested_ok)
         selfm, params, ret, fgen = parse_sig(hdr)
-        stmts = PG(lex(body)).block()
+        pb = PG(lex(body)); pb.nested_ok = nested_ok
+        stmts = pb.block()
+        if pb.peek()[0] != "eof":
+            raise TranslateError(f"trailing tokens after the body: {pb.peek()[1]!r}")
+        self.top_stmts = stmts
         env = Env()
         binders = []
         gens = list(k.generics)
@@ -1537,9 +1617,12 @@ def translate(k: GK):
         text = strip_comments(read_src(k.file))
         for a, b in k.subst.items():
             text = text.replace(a, b)
-        m = re.search(k.scope, text)
-        if not m:
-            raise TranslateError(f"struct {k.scope!r} not found")
+        ms = list(re.finditer(k.scope, text))
+        if len(ms) != 1:
+            raise TranslateError(f"item {k.scope!r}: {len(ms)} matches; exactly one is required")
+        m = ms[0]
+        if not GUARD.attrs_live(GUARD.attrs_before(text, m.start()), f"item {k.scope!r}"):
+            raise TranslateError(f"item {k.scope!r} is cfg-disabled")
         j = m.end()
         # up to the end of the item: `;` (tuple struct) or the matching `}`
         while text[j] not in ";{":
@@ -1551,9 +1634,11 @@ def translate(k: GK):
         return f"/-- `{got}` — the definition in {k.file} the state mapping of this file was written for (checked token by token on every run) -/\ndef {k.lean_name} : Unit := ()\n"
     if k.kind == "const":
         text = k.source()
-        m = re.search(r"\bconst\s+" + re.escape(k.fn) + r"\s*:\s*([^=;]+)=\s*([^;]+);", text)
-        if not m:
-            raise TranslateError(f"const {k.fn} not found")
+        ms = [m for m in re.finditer(r"\bconst\s+" + re.escape(k.fn) + r"\s*:\s*([^=;]+)=\s*([^;]+);", text)
+              if GUARD.attrs_live(GUARD.attrs_before(text, m.start()), f"const {k.fn}")]
+        if len(ms) != 1:
+            raise TranslateError(f"const {k.fn}: {len(ms)} live definitions in its scope; exactly one is required")
+        m = ms[0]
         tr = Tr(k)
         o = Out(2)
         e = PG(lex(m.group(2))).expr()
